@@ -16,7 +16,7 @@ import re
 from hypothesis import strategies as st
 
 from vf import runner
-from vf.engine import Case, Failure, h
+from vf.engine import Case, Failure, h, deviation_sets
 from vf.project import Project
 from vf.render import skeleton as sk
 
@@ -219,10 +219,9 @@ def explain_func(f, lang, obs, headers, limits):
     if not spec_bad:
         return None
     applicable = [d for d in DEVIATIONS if d.split("-")[0] in (lang, "any") or (d.startswith("ts-") and lang == "js")]
-    for r in range(1, len(applicable) + 1):
-        for devs in itertools.combinations(applicable, r):
-            if not judge_func(f, lang, obs, headers, limits, devs):
-                return ("known", list(devs), spec_bad)
+    for devs in deviation_sets("C01", applicable, key=lambda n: "dev:" + n):
+        if not judge_func(f, lang, obs, headers, limits, devs):
+            return ("known", list(devs), spec_bad)
     return ("unknown", spec_bad)
 
 
